@@ -38,46 +38,6 @@ def variant_edges(ctx, adt, variant):
     return out
 
 
-def matches_guard(ctx, value_edges):
-    """`matches!(x, A | B)` lowers to: value edges -> `flag = true`, otherwise -> `flag = false`, then a
-    switch on `flag`.  Returns the true edges of that second switch, provided `flag = true` is assigned
-    only behind the value edges (so the flag is exactly 'x matched')."""
-    flags = {}
-    for b in ctx.body.blocks:
-        if b.cleanup:
-            continue
-        for s in b.stmts:
-            if s.k == "assign" and not s.place.proj and s.rv.k == "use" and s.rv.ops[0].is_const \
-                    and ctx.body.locals[s.place.local]["ty"] == "bool" and s.rv.ops[0].const_int in (0, 1):
-                flags.setdefault(s.place.local, {0: [], 1: []})[s.rv.ops[0].const_int].append(b.idx)
-    out = []
-    for l, d in flags.items():
-        if not d[1] or not d[0]:
-            continue
-        if ctx.cfg.witness_path(d[1], value_edges) is not None:
-            continue
-        if any(e[1] in d[1] or True for e in value_edges) and not all(
-                any(blk in ctx.cfg.reach([e[1]]) for e in value_edges) for blk in d[1]):
-            continue
-        for b in ctx.body.blocks:
-            t = b.term
-            if b.cleanup or t is None or t.k != "switch" or t.discr.place is None:
-                continue
-            # the switch tests a copy/move of the flag
-            og_local = t.discr.place.local
-            src = {og_local}
-            for (kind, bb, idx, obj) in ctx.origins.defs.get(og_local, []):
-                if kind == "stmt" and obj.rv.k == "use" and obj.rv.ops[0].place is not None:
-                    src.add(obj.rv.ops[0].place.local)
-            if l in src:
-                for v, dst in t.tv:
-                    if v != 0:
-                        out.append((b.idx, dst, v))
-                if any(v == 0 for v, _ in t.tv):
-                    out.append((b.idx, t.otherwise, "otherwise"))
-    return out
-
-
 def run(chk, prog):
     chk.rules_live = ["R1", "R2", "R3", "R4", "R5"]
     chk.explanation = (
